@@ -385,9 +385,11 @@ func (sc *serverConn) readLoop() (err error) {
 		case FrameSettings:
 			st := fr.Body().(*Settings)
 			if !st.IsAck() { // if it has ack, just ignore
-				sc.handleSettings(st)
-				// forward to handleStreams so the INITIAL_WINDOW_SIZE delta is
-				// applied to open streams in frame order.
+				// Applied, and acknowledged, by handleStreams, in frame order:
+				// that is where the stream windows and the encoder live. An
+				// acknowledgement sent from here overtook DATA that the stream
+				// loop was still to send under the old window, which a peer
+				// that counts from the ACK on sees as a flow-control violation.
 				if !sc.forward(fr) {
 					return errConnClosed
 				}
@@ -707,7 +709,12 @@ loop:
 								break loop
 							}
 						}
+					}
 
+					// the new values are in force: say so, then use them
+					sc.handleSettings(st)
+
+					if st.hasWindowSize {
 						sc.flushStreams(strms, closeStream)
 					}
 				case FrameWindowUpdate:
